@@ -122,8 +122,21 @@ func c06(c *Ctx) {
 			fns = append(fns, fi)
 		}
 	}
+	// … and the functions of package main that the step runs through before and after the IRC server: Apply and what it calls
+	// in its own package (applyProto, applyRobustMessage, sendMessages and any helper that looks at the client's line)
+	// (only the index / slice rule G2 is applied to them: their termination calls are the deliberate reaction to a storage
+	// failure, which is outside the property)
+	var mainFns []*load.FuncInfo
+	if ap := c.P.Func("main.(*FSM).Apply"); ap != nil {
+		for _, fi := range c.moduleCallees(ap, true) {
+			if fi.Body() != nil && !scope[fi] && load.ShortPkg(fi.Pkg.PkgPath) == "main" {
+				mainFns = append(mainFns, fi)
+			}
+		}
+	}
+	sort.Slice(mainFns, func(i, j int) bool { return mainFns[i].Name() < mainFns[j].Name() })
 	sort.Slice(fns, func(i, j int) bool { return fns[i].Name() < fns[j].Name() })
-	r.Functions = len(fns)
+	r.Functions = len(fns) + len(mainFns)
 	serverOnly := func(fi *load.FuncInfo) bool { return f.SReach[fi] && !f.CReach[fi] }
 	if len(fns) < 60 {
 		r.Break("only %d reachable ircserver functions (expected >= 60)", len(fns))
@@ -304,7 +317,7 @@ func c06(c *Ctx) {
 	}
 	r.Check(nG1 >= 80, "C06.G1", "scope", "parameter accesses enumerated", "-", itoa(nG1), "fewer msg.Params accesses than expected")
 
-	c.c06Index(f, fns, serverOnly)
+	c.c06Index(f, append(append([]*load.FuncInfo{}, fns...), mainFns...), serverOnly)
 	c.c06Nil(f, fns, serverOnly, arm)
 	c.c06Misc(f, fns, arm)
 }
@@ -693,6 +706,55 @@ func (c *Ctx) c06Index(f *ircFacts, fns []*load.FuncInfo, serverOnly func(*load.
 					})
 				}
 			}
+			// the key of `for k := range Y` indexes a slice that was made with len(Y)
+			if idx != nil && !okv {
+				if iid, isID := ast.Unparen(idx).(*ast.Ident); isID {
+					ast.Inspect(fi.Body(), func(m ast.Node) bool {
+						rs, isR := m.(*ast.RangeStmt)
+						if !isR || rs.Key == nil || !(rs.Body.Pos() <= node.Pos() && node.End() <= rs.Body.End()) {
+							return true
+						}
+						kid, isK := rs.Key.(*ast.Ident)
+						if !isK || info.Defs[kid] == nil || info.Defs[kid] != astx.Obj(info, iid) {
+							return true
+						}
+						if d := uniqueDef(info, fi.Node(), X); d != nil {
+							if mk, isMk := ast.Unparen(d).(*ast.CallExpr); isMk && astx.Builtin(info, mk) == "make" && len(mk.Args) == 2 {
+								if lc, isL := ast.Unparen(mk.Args[1]).(*ast.CallExpr); isL && astx.Builtin(info, lc) == "len" && len(lc.Args) == 1 && astx.Same(info, lc.Args[0], rs.X) {
+									okv, why = true, "range index over the value whose length the slice was made with"
+								}
+							}
+						}
+						return true
+					})
+				}
+			}
+			// idx < len(A) where A was made with len(X): idx is valid for X as well
+			if idx != nil && !okv {
+				if iid, isID := ast.Unparen(idx).(*ast.Ident); isID {
+					for _, fct := range facts {
+						be, ok := ast.Unparen(fct.Expr).(*ast.BinaryExpr)
+						if !ok || fct.Tag != nil || !fct.Val || be.Op != token.LSS {
+							continue
+						}
+						lid, ok := ast.Unparen(be.X).(*ast.Ident)
+						if !ok || astx.Obj(info, lid) != astx.Obj(info, iid) {
+							continue
+						}
+						lc, ok := ast.Unparen(be.Y).(*ast.CallExpr)
+						if !ok || astx.Builtin(info, lc) != "len" || len(lc.Args) != 1 {
+							continue
+						}
+						if d := uniqueDef(info, fi.Node(), lc.Args[0]); d != nil {
+							if mk, isMk := ast.Unparen(d).(*ast.CallExpr); isMk && astx.Builtin(info, mk) == "make" && len(mk.Args) == 2 {
+								if l2, isL := ast.Unparen(mk.Args[1]).(*ast.CallExpr); isL && astx.Builtin(info, l2) == "len" && len(l2.Args) == 1 && astx.Same(info, l2.Args[0], X) {
+									okv, why = true, "index below the length of a slice that was made with this operand's length"
+								}
+							}
+						}
+					}
+				}
+			}
 			switch {
 			case okv:
 			case idx != nil:
@@ -724,6 +786,12 @@ func (c *Ctx) c06Index(f *ircFacts, fns []*load.FuncInfo, serverOnly func(*load.
 					r.Except("C06.G2", fi.Name(), construct, pos, "the acting session was created by the HTTP API with a 256 character secret (checked: handleCreateSession formats 128 random bytes with %x); services pseudo-clients (empty secret) never act, their ids carry Reply != 0 and are never the Session of an entry")
 				} else {
 					r.Fail("C06.G2", fi.Name(), construct, pos, "the session secret is sliced to 8 bytes but the API no longer provably creates secrets of at least 8 bytes")
+				}
+			case c.attribName(fi) == "main.(*FSM).applyProto" && strings.HasSuffix(construct, ".Data[0]"):
+				if c.applyProtoAfterDecode() {
+					r.Except("C06.G2", fi.Name(), construct, pos, "every call of applyProto is dominated by robust.NewMessageFromBytes on the entry's data, which does not return for empty data (checked: call sites)")
+				} else {
+					r.Fail("C06.G2", fi.Name(), construct, pos, "l.Data[0] is read although applyProto is no longer provably called only after the entry's data was decoded")
 				}
 			case strings.HasSuffix(construct, ".IRCParams()[0]"):
 				if c.ircParamsNonEmpty() {
@@ -1063,4 +1131,34 @@ func defsOfIn(info *types.Info, root ast.Node, obj types.Object) []ast.Node {
 		return true
 	})
 	return out
+}
+
+// applyProtoAfterDecode: every call site of applyProto in package main is dominated by a call of robust.NewMessageFromBytes.
+func (c *Ctx) applyProtoAfterDecode() bool {
+	ap := c.P.Func("main.(*FSM).applyProto")
+	if ap == nil {
+		return false
+	}
+	n := 0
+	for _, fi := range c.P.FuncsIn("main") {
+		if fi.Body() == nil {
+			continue
+		}
+		info := fi.Info()
+		g := c.Graph(fi)
+		for _, v := range g.Nodes() {
+			for _, call := range astx.Calls(v.Node, false) {
+				if astx.Callee(info, call) != ap.Obj {
+					continue
+				}
+				n++
+				if !g.DominatedBy(v.ID, func(x *cfgx.Vertex) bool {
+					return containsCall(info, x, func(fn *types.Func, _ *ast.CallExpr) bool { return isFunc(fn, "robust", "NewMessageFromBytes") })
+				}) {
+					return false
+				}
+			}
+		}
+	}
+	return n > 0
 }
